@@ -115,18 +115,27 @@ SRC_SPECS = [
          state=['self._mu_quads', 'self._wi_quads']),
 ]
 
+USES_MODELS = ['C04']      # Interp.computeOpacity: the table look-up behind every layer's opacity
+
 RULE = ('real EmissionModel/DirectImageModel, 1-40 layers, 1-12 wavenumbers, ngauss 1-8, temperature profile in '
         '{isothermal, decreasing, inverted, random, two-level}, 1-3 active gases with in-memory tables whose magnitude '
         'regime is drawn from {zero, thin, mid, saturated, mixed-per-wavenumber}, optional CIA pair; plus a reuse stream '
         '(one model object, parameters changed through the public setters between model() calls, judged against '
-        'the new values and a freshly built model); '
+        'the new values and a freshly built model); the absorption opacity of every layer is re-derived from the installed '
+        'tables at the layer (T, P) (C04 model Interp.computeOpacity x mixing ratio) and the spectrum judged against the '
+        'documented integral over THOSE opacities, with a fixed quota (every 7th case) of atmospheres whose upper or lower '
+        'layers leave the table on both axes (the four (T, P) corners); '
         'distinct non-trivial = distinct (kind, nlayers, ngauss, T-profile class, opacity regime, cia, clamp pattern) '
         'with at least one column neither transparent nor saturated')
-ASSUMPTIONS = ['np.polynomial.legendre.leggauss(n): nodes in (-1,1), weights > 0, sum w = 2, sum w x = 0 (checked numerically n=1..16; flux_between / eclipse_between use all four)',
+ASSUMPTIONS = ['the opacity of a layer is the tabulated cross-section at the layer (T, P) - bilinear in (T, log10 P), held at the '
+               'nearest edge node outside the table, zero below both minima (the statement of C04, model Interp.computeOpacity '
+               'served by driver_c04) - times the mixing ratio, summed over the active gases (all tables of a case share the '
+               'wavenumber grid of the run)',
+               'np.polynomial.legendre.leggauss(n): nodes in (-1,1), weights > 0, sum w = 2, sum w x = 0 (checked numerically n=1..16; flux_between / eclipse_between use all four)',
                'Planck constants and the literals 10000*1e-6, 1e-6, 3.08567758e16 are passed to the model as floats '
                '(constants read from taurex.util.emission at run time)',
-               'sigma_xsec prepared by the contributions (opacity interpolation, mixing-ratio weighting) is an input here; '
-               'it is the subject of C03/C04',
+               'sigma_xsec of the CIA contribution is an input here (the subject of C03); the absorption sigma_xsec is '
+               'compared with the table look-up (above)',
                'rounding: model on Float vs numpy/numba(fastmath) doubles compared to 1e-8 relative',
                'exp(-10) clamp: implementation accepted if equal to the exactly-clamped model, or within the proved band '
                'exp(-10)*sum_{clamped layers} B(T_l) of the unclamped integral',
@@ -139,6 +148,7 @@ ASSUMPTIONS = ['np.polynomial.legendre.leggauss(n): nodes in (-1,1), weights > 0
                'evaluate_emission with recorders (op c02.partial)']
 
 MOLS = ['H2O', 'CH4', 'CO2', 'CO', 'NH3']
+CORNERS = ['T>max,P<min', 'T<min,P<min', 'T>max,P>max', 'T<min,P>max']
 PC_LIT = (10000 * 1e-6, 1e-6)
 PARSEC = 3.08567758e16
 EM10 = math.exp(-10.0)
@@ -160,6 +170,12 @@ def gen_case(rng, k, thorough=False):
     nwn = int(rng.integers(1, 13 if thorough else 7))
     wn = np.sort(rng.choice(np.arange(200.0, 12000.0, 13.0), size=nwn, replace=False))
     tclass = ['isothermal', 'decreasing', 'inverted', 'random', 'twolevel'][k % 5]
+    # fixed quota: an atmosphere whose top or bottom layers leave the opacity tables on BOTH axes (hot thermosphere at low
+    # pressure, cold top, hot / cold deep layers at high pressure)
+    corner = CORNERS[(k // 7) % len(CORNERS)] if k % 7 == 3 else None
+    if corner:
+        nl = max(nl, 6)
+        tclass = 'inverted' if corner in ('T>max,P<min', 'T<min,P>max') else 'decreasing'
     if tclass == 'isothermal':
         T = float(rng.uniform(300, 2800))
     else:
@@ -209,7 +225,24 @@ def gen_case(rng, k, thorough=False):
                 pmin=float(10 ** rng.uniform(-3, 1)), pmax=float(10 ** rng.uniform(4, 7)), T=T, gases=gases,
                 ngauss=int(rng.integers(1, 9)), cia=[cia['pair']] if cia else [])
     kind = 'direct' if k % 4 == 3 else 'emission'
-    c = dict(kind=kind, spec=spec, wn=wn, tables=tables, cia=cia, tclass=tclass, regime=regime)
+    if corner:
+        # every table ends inside the atmosphere on both axes: temperature nodes within the middle half of the profile's
+        # range, pressure nodes within the middle half (in log) of the pressure range
+        Ta = np.sort(np.asarray(T, float))
+        tlo, thi = Ta[len(Ta) // 4], Ta[(3 * len(Ta)) // 4]
+        if thi - tlo < 40.0:
+            tlo, thi = tlo - 20.0, thi + 20.0
+        lp0, lp1 = np.log10(spec['pmin']), np.log10(spec['pmax'])
+        for t in tables.values():
+            nT, nP = len(t['tg']), len(t['pg'])
+            t['tg'] = np.round(np.linspace(tlo, thi, nT) + rng.uniform(-0.1, 0.1, nT) * (thi - tlo) / nT, 1)
+            t['pg'] = 10 ** (np.linspace(lp0 + 0.25 * (lp1 - lp0), lp1 - 0.25 * (lp1 - lp0), nP)
+                             + rng.uniform(-0.05, 0.05, nP) * (lp1 - lp0) / nP - 5.0)
+            # steep dependence on both axes, so that a wrong node shows
+            f = 10 ** (rng.uniform(0.3, 1.0) * np.linspace(-1, 1, nT))[None, :, None] * \
+                10 ** (rng.uniform(0.3, 1.0) * np.linspace(-1, 1, nP))[:, None, None]
+            t['tab'] = np.asarray(t['tab'], float) * (f if rng.random() < 0.5 else 1.0 / f)
+    c = dict(kind=kind, spec=spec, wn=wn, tables=tables, cia=cia, tclass=tclass, regime=regime, corner=corner)
     if k % 8 == 6:
         c['wn_dtype'] = 'int64' if (k // 8) % 2 == 0 else 'float32'      # the grid values are whole numbers
     return c
@@ -234,6 +267,8 @@ def observe(m):
                 grid=np.array(grid, float), flux=np.array(flux, float).ravel(),
                 dz=np.array(m.deltaz, float), dens=np.array(m.densityProfile, float),
                 T=np.array(m.temperatureProfile, float), contribs=E.contribution_inputs(m),
+                P=np.array(m.pressureProfile, float), active=[str(g) for g in m.chemistry.activeGases],
+                mix={str(g): np.array(m.chemistry.get_gas_mix_profile(g), float) for g in m.chemistry.activeGases},
                 mu_quads=np.array(m._mu_quads, float), wi_quads=np.array(m._wi_quads, float),
                 rp=float(m.planet.fullRadius), rs=float(m.star.radius), dist=float(m.star.distance),
                 tstar=float(m.star.temperature), sed=np.array(m.star.spectralEmissionDensity, float),
@@ -442,8 +477,101 @@ def judge(ctx, c, o, small, kp=''):
             ctx.violation(kp + 'contribution-function:' + kind,
                           'contribution function negative or its layer sum not within exp(-10) above 1 - exp(-surface_tau)',
                           dict(c, small=small), dict(tot=tot, absorbed=absorbed, min=float(o['tau'].min())))
+    # ---- the opacities themselves: every layer's absorption cross-section re-derived from the installed tables
+    tables_check(ctx, c, o, small, kp)
     # ---- the property's own predicates, on the implementation --------------------------------------------
     predicates(ctx, c, o, ref, small, kp)
+
+
+def table_lookup_np(tg, pg_pa, tab, T, P):
+    """the documented look-up evaluated with plain numpy (m2): bilinear in (T, log10 P) inside the table, held at the nearest
+    edge node outside it, zero below both the lowest temperature and the lowest pressure; tab[P, T, wn] in cm2"""
+    tg, tab = np.asarray(tg, float), np.asarray(tab, float)
+    lp = np.log10(np.asarray(pg_pa, float))
+    x = math.log10(P)
+    if T < tg[0] and x < lp[0]:
+        return np.zeros(tab.shape[2])
+    t = min(max(T, tg[0]), tg[-1])
+    x = min(max(x, lp[0]), lp[-1])
+    j = min(max(int(np.searchsorted(tg, t, side='right')) - 1, 0), len(tg) - 2)
+    i = min(max(int(np.searchsorted(lp, x, side='right')) - 1, 0), len(lp) - 2)
+    u = (t - tg[j]) / (tg[j + 1] - tg[j])
+    v = (x - lp[i]) / (lp[i + 1] - lp[i])
+    return ((1 - v) * (1 - u) * tab[i, j] + (1 - v) * u * tab[i, j + 1] + v * (1 - u) * tab[i + 1, j]
+            + v * u * tab[i + 1, j + 1]) / 1e4
+
+
+def region_of(tg, lp, T, x):
+    a = 'T<min' if T < tg[0] else ('T>max' if T >= tg[-1] else 'T-in')
+    b = 'P<min' if x < lp[0] else ('P>max' if x >= lp[-1] else 'P-in')
+    return a + ',' + b
+
+
+def tables_check(ctx, c, o, small, kp=''):
+    """the absorption contribution's sigma_xsec[layer, wn] against sum over the active gases of (table of the gas looked up
+    at the layer's (T, P)) x (mixing ratio of the gas in the layer): the C04 model through driver_c04 (mismatch); then the
+    property on the real code: the spectrum equals the documented integral evaluated on the opacities the TABLES give
+    (independent numpy look-up), within the licensed clamp band"""
+    tables = c.get('tables') or {}
+    ab = [sg for kd, sg in o['contribs'] if kd == 0]
+    if not ab or any(g not in tables for g in o['active']) or len(o['grid']) != len(c['wn']):
+        ctx.bucket('table-lookup:not-applicable')
+        return
+    sig_impl = ab[0]
+    nl, nw = sig_impl.shape
+    sig_model = np.zeros((nl, nw))
+    sig_doc = np.zeros((nl, nw))
+    regions = set()
+    # quick tier: every case goes through the model driver; thorough tier: every second case (one driver call per layer and
+    # gas; the numpy evaluation of the property below runs on every case in both tiers)
+    via_driver = ctx.quick or ctx.evaluations % 2 == 0 or bool(c.get('corner'))
+    for g in o['active']:
+        t = tables[g]
+        tg = np.asarray(t['tg'], float)
+        pg_pa = np.asarray(t['pg'], float) * 1e5
+        tab = np.asarray(t['tab'], float)
+        lp = np.log10(pg_pa)
+        tabs = C.LLL([tab[:, :, i].tolist() for i in range(tab.shape[2])])
+        for l in range(nl):
+            Tl, Pl = float(o['T'][l]), float(o['P'][l])
+            if via_driver:
+                d = ctx.model('C04').call('c04.opacity', C.N(0), C.L(tg), C.L(pg_pa), tabs, C.F(Tl), C.F(Pl))
+                sig_model[l] += np.array(d.list()) * o['mix'][g][l]
+            sig_doc[l] += table_lookup_np(tg, pg_pa, tab, Tl, Pl) * o['mix'][g][l]
+            r = region_of(tg, lp, Tl, math.log10(Pl))
+            regions.add(r)
+            ctx.bucket('table-region:' + r)
+    for r in regions:
+        ctx.bucket('table-region-cases:' + r)
+    if c.get('corner'):
+        ctx.bucket('table-corner-quota:%s:%s' % (c['corner'], 'reached' if c['corner'] in regions else 'not-reached'))
+    if via_driver:
+        scale = float(np.max(sig_model)) if sig_model.size else 0.0
+        ctx.bucket('table-lookup:compared-with-driver_c04')
+        ctx.check_close('AbsorptionContribution.sigma_xsec vs Interp.computeOpacity(T_l, P_l) x mixing ratio (driver_c04)',
+                        sig_impl.ravel(), sig_model.ravel(), dict(c, small=small), rel=1e-9, abs_=1e-13 * scale)
+    # the property's statement on the real code: documented integral over the TABLE opacities
+    kind = c['kind']
+    nus = o['grid']
+    contribs = [(0, sig_doc)] + [(kd, sg) for kd, sg in o['contribs'] if kd != 0]
+    el = E.layer_elements(contribs, o['dz'], o['dens'])
+    ref = E.ref_emission(nus, el, o['T'], o['mu_quads'], o['wi_quads'], clamp=10.0)
+    if kind == 'emission':
+        fac = (o['rp'] / o['rs']) ** 2 / E.planck_np(nus, o['tstar'])
+    else:
+        fac = np.full(len(nus), o['rp'] ** 2 / (2 * (o['dist'] * PARSEC) ** 2))
+    flux = o['flux']
+    if not np.all(np.isfinite(flux)):
+        return
+    floor = 1e-12 * E.planck_np(nus, float(o['T'].max())) * fac
+    for a, cut, u, bd, fl in zip(flux, ref['flux_cut'] * fac, ref['flux_uncut'] * fac, ref['band_flux'] * fac, floor):
+        if C.close(a, cut, rel=1e-7, abs_=fl) or abs(a - u) <= bd * (1 + 1e-6) + 1e-7 * abs(u) + fl:
+            continue
+        ctx.violation(kp + 'integral-from-tables:' + kind, 'spectrum differs from the documented layered thermal integral '
+                      'evaluated on the opacities the cross-section tables give at each layer (T, P)',
+                      dict(c, small=small), dict(impl=flux, documented=ref['flux_uncut'] * fac,
+                                                 band=ref['band_flux'] * fac, regions=sorted(regions)))
+        break
 
 
 def predicates(ctx, c, o, ref, small, kp=''):
